@@ -71,6 +71,11 @@ class C08(Check):
                               hier=depth >= 1, max_edges=4,
                               # multi-operator nodes: the operator that receives the input is read by a second operator
                               readouts=(0.4, 0.0, 0.5) if rng.random() < 0.25 else None)
+        if stratum == 'S-big' and rng.random() < 0.3:
+            # more than twenty units of one kind, every unit fed by its two predecessors: a convergent projection sparse enough
+            # (edges / (targets x sources) <= matrix_sparseness) for the compiler's index path
+            spec = models.gen_big(rng, kind='converge', n=rng.randint(20, 26))
+            depth = 0
         if depth >= 1 and not spec.get('circuits'):
             depth = 0
         if depth == 2:
@@ -98,7 +103,7 @@ class C08(Check):
         elif rng.random() < 0.35 and stratum != 'S-torch':
             solver = 'heun'
         N = steps if (solver != 'scipy' or rng.random() < 0.5) else steps + rng.randint(1, 9)
-        vec = (rng.random() < 0.5 or stratum == 'S-cols') and stratum != 'S-fortran'
+        vec = (rng.random() < 0.5 or stratum in ('S-cols', 'S-big')) and stratum != 'S-fortran'
         inputs = []
         # every operator can be addressed; for a readout operator the addressed variable is the one it READS from its sibling
         # (the extrinsic input then ADDS to the sibling's contribution)
@@ -110,7 +115,7 @@ class C08(Check):
             var = models.LIB[lib]['in'] or reads_of[opn]
             have = [n for n in nodes if (n, opn) in net.inst]
             kind = rng.choice(['1d', '1d', 'n1', 'bcast', 'sub'])
-            if stratum == 'S-cols' and i == 0:
+            if (stratum == 'S-cols' or (stratum == 'S-big' and rng.random() < 0.6)) and i == 0:
                 kind = 'cols'
             if kind in ('1d', 'n1'):
                 inputs.append({'id': i + 1, 'target': f'{rng.choice(have)}/{opn}/{var}', 'shape': kind, 'op': opn})
